@@ -6,22 +6,23 @@ implementation by tools/harness/props/c06.py through real PDF files).  Specifica
 `PdfVerif.Spec.SimpleFont` (AGL section 2; last Differences assignment else base table; ToUnicode >
 encoding > `(cid:N)`; Widths > standard-14 metric > MissingWidth; x 1/1000 or x FontMatrix[0]).
 All theorems are parametric in the tables (glyph list, ENCODING rows, EncodingDB columns, metrics);
-`TablesOK` lists the table facts used, which the harness evaluates on the regenerated tables every run.
+`TablesOK` lists the table facts used; `tables_ok` proves them in the kernel for the tables regenerated
+from the Python source, and the `…_pdfminer` theorems are the instances for exactly the tables and the
+`EncodingDB` the driver runs.
 
 Only property theorems live here (helper lemmas: `Lemmas/SimpleFont.lean`, `Lemmas/Agl.lean`).
 -/
 import PdfVerif.Lemmas.SimpleFontBuild
 import PdfVerif.Lemmas.Agl
+import PdfVerif.Lemmas.SimpleFontInst
 
 namespace PdfVerif.Props.C06
-open PdfVerif PdfVerif.SimpleFont PdfVerif.SimpleFont.Spec
+open PdfVerif PdfVerif.SimpleFont PdfVerif.SimpleFont.Spec PdfVerif.Gen.FontCode
 
 /-- Facts about the tables that the theorems use. -/
 structure TablesOK (T : Tables) : Prop where
   /-- no glyph-list entry has an empty value -/
   glyphs : GlyphListOK T.gl
-  /-- the empty string is not a glyph name -/
-  emptyName : glLookup T.gl [] = none
   /-- every glyph name of the ENCODING rows has a value … -/
   rowsResolve : RowsResolve T.gl T.rows
   /-- … and is an ordinary name (no lenient component, no partially unknown components) -/
@@ -35,6 +36,27 @@ list names, `uniXXXX…`, `uXXXX`–`uXXXXXX`, components, suffixes - and every 
 theorem agl_grammar (gl : GlyphList) (hgl : GlyphListOK gl) (nm : Option Name)
     (hj : judgedName gl nm = true) : name2unicode gl nm = aglText gl nm :=
   name2unicode_eq_aglText hgl nm hj
+
+/-- The statement of the design: on every glyph name of the grammar (list names, `uniXXXX`+, `uXXXX`-`uXXXXXX`,
+underscore-joined components, suffix after the first period dropped) `name2unicode` returns the - non-empty -
+character string of the Adobe Glyph List algorithm. -/
+theorem agl_grammar_wellformed (gl : GlyphList) (hgl : GlyphListOK gl) (n : Name)
+    (hw : wellFormedName gl n = true) :
+    name2unicode gl (some n) = some (aglSpec gl n) ∧ aglSpec gl n ≠ [] := by
+  have hj := wellFormed_judged hgl n hw
+  have h := agl_grammar gl hgl (some n) hj
+  have hne : aglSpec gl n ≠ [] := by
+    unfold aglSpec
+    apply flatten_ne_nil_of_all _ (splitOn_ne_nil _ _)
+    apply List.all_eq_true.mpr
+    intro c hc
+    simp [wf_nonempty hgl (List.all_eq_true.mp hw c hc)]
+  refine ⟨?_, hne⟩
+  rw [h]
+  simp only [aglText]
+  cases ht : aglSpec gl n with
+  | nil => exact absurd ht hne
+  | cons a b => rfl
 
 /-! ## Encodings -/
 
@@ -79,19 +101,9 @@ theorem builtin_text (T : Tables) (hT : TablesOK T) (ff : FontFile) (code : Int)
       | none => none := by
   unfold builtinEncoding builtinName at *
   rw [tlookup_putsEncoding]
-  cases hloop : ff.notdefLoop
-  · simp only [Bool.false_eq_true, if_false, List.nil_append]
-    cases hl : lastAssigned ff.puts code with
-    | some nm => exact agl_grammar T.gl hT.glyphs nm (hj nm hl)
-    | none => simp [tlookup_nil]
-  · simp only [if_true, List.singleton_append, lastAssigned_cons]
-    cases hl : lastAssigned ff.puts code with
-    | some nm => exact agl_grammar T.gl hT.glyphs nm (hj nm hl)
-    | none =>
-      by_cases h1 : (1 : Int) = code
-      · subst h1
-        simp [name2unicode_notdef T.gl hT.emptyName]
-      · simp [h1, tlookup_nil]
+  cases hl : lastAssigned ff.puts code with
+  | some nm => exact agl_grammar T.gl hT.glyphs nm (hj nm hl)
+  | none => simp [tlookup_nil]
 
 /-- What the font's encoding gives a code (judged glyph names). -/
 theorem encoding_text (T : Tables) (hT : TablesOK T) (fd : FontDict) (code : Int)
@@ -239,6 +251,155 @@ theorem type3_scale (T : Tables) (fd : FontDict) (code : Int) (h3 : fd.isType3 =
       | nil => rfl
       | cons c r => cases r <;> simp [slookup]
 
+/-! ## The regenerated tables of pdfminer -/
+
+/-- The tables regenerated from glyphlist.py / latin_enc.py satisfy the table facts (kernel computation over
+the 4 281 glyph-list entries and the 232 ENCODING rows, `Lemmas/SimpleFontInst.lean`). -/
+theorem tables_ok : TablesOK Inst.tables :=
+  ⟨Inst.glyphs_ok, Inst.rows_resolve, Inst.rows_judged⟩
+
+/-- The font the driver (and the correspondence check) builds is `modelFont` on the regenerated tables. -/
+theorem modelFont_pdfminer (fd : FontDict) :
+    modelFont Inst.tables fd = build Inst.glyphs Inst.encDB Inst.metrics fd := rfl
+
+/-- `name2unicode` with pdfminer's glyph list is the AGL algorithm on every judged name. -/
+theorem agl_grammar_pdfminer (nm : Option Name) (hj : judgedName Inst.glyphs nm = true) :
+    name2unicode Inst.glyphs nm = aglText Inst.glyphs nm :=
+  agl_grammar Inst.glyphs Inst.glyphs_ok nm hj
+
+/-- Text precedence for pdfminer's own tables: no hypothesis about the tables is left. -/
+theorem C06_text_precedence_pdfminer (fd : FontDict) (code : Int)
+    (hj : judgedCode Inst.tables fd code = true) :
+    glyphText (build Inst.glyphs Inst.encDB Inst.metrics fd) code = specText Inst.tables fd code :=
+  C06_text_precedence Inst.tables tables_ok fd code hj
+
+/-- Width precedence for pdfminer's own tables. -/
+theorem C06_width_precedence_pdfminer (fd : FontDict) (code : Int)
+    (hj : judgedCode Inst.tables fd code = true) :
+    glyphAdv (build Inst.glyphs Inst.encDB Inst.metrics fd) code = specWidth Inst.tables fd code :=
+  C06_width_precedence Inst.tables tables_ok fd code hj
+
+/-! ## Glue regenerated from the source: font class dispatch, constants -/
+
+/-- `get_font` (regenerated if/elif chain): Type1, MMType1, TrueType and a missing or unknown Subtype are built
+as `PDFType1Font` (`PDFTrueTypeFont` adds nothing - checked by the translator), Type3 as `PDFType3Font`;
+Type0 and CIDFont dictionaries are composite fonts (C07). -/
+theorem subtype_dispatch :
+    simpleClass (some "Type1") = some false ∧ simpleClass (some "MMType1") = some false ∧
+    simpleClass (some "TrueType") = some false ∧ simpleClass none = some false ∧
+    simpleClass (some "NoSuchSubtype") = some false ∧ simpleClass (some "Type3") = some true ∧
+    simpleClass (some "Type0") = none ∧ simpleClass (some "CIDFontType0") = none ∧
+    simpleClass (some "CIDFontType2") = none := by decide
+
+/-- The constants the model takes from the source are the ones of the specification: the placeholder is
+`(cid:N)`, glyph space is 1/1000 of text space, the default encoding is StandardEncoding, the surrogate
+range and the upper bound of `raise_key_error_for_invalid_unicode` are those of a Unicode scalar value. -/
+theorem code_constants :
+    (∀ c, placeholder c = specPlaceholder c) ∧ DEFAULT_SCALE = 1 / 1000 ∧ DEFAULT_ENCODING = "StandardEncoding" ∧
+    (∀ v, validUnicode v = isScalar v) ∧ UNI_PREFIX = ['u', 'n', 'i'] ∧ U_PREFIX = ['u'] ∧ UNI_GROUP = 4 ∧
+    U_MIN = 4 ∧ U_MAX = 6 ∧ SUFFIX_SEP = '.' ∧ COMPONENT_SEP = '_' :=
+  ⟨fun _ => rfl, rfl, rfl, validUnicode_eq_isScalar, rfl, rfl, rfl, rfl, rfl, rfl, rfl⟩
+
+/-! ## Embedded Type 1 programs as bytes -/
+
+/-- The property for a font dictionary whose FontFile is given as the bytes of the stream: when the
+clear-text header can be read (`judgedRaw`), construction succeeds and text and advance of every judged code
+are the specified ones, where the built-in encoding is what the tokeniser (`Lexer.specLex`, proved equal
+to the buffered tokeniser at every buffer size in C14) and `Type1FontHeaderParser`'s stack machine extract. -/
+theorem C06_raw_precedence (T : Tables) (hT : TablesOK T) (raw : RawFontDict) (code : Int)
+    (hj : judgedRaw T raw code = true) :
+    ∃ f, buildRaw T.gl (dbOf T) T.fm raw = .ok f ∧
+      specRaw T raw code = some (glyphText f code, glyphAdv f code) := by
+  unfold judgedRaw at hj
+  unfold buildRaw specRaw
+  cases hr : resolveFontFile T.fm raw with
+  | error e => simp [hr] at hj
+  | ok fd =>
+    simp only [hr] at hj
+    refine ⟨build T.gl (dbOf T) T.fm fd, rfl, ?_⟩
+    have h1 := C06_text_precedence T hT fd code hj
+    have h2 := C06_width_precedence T hT fd code hj
+    simp only [modelFont] at h1 h2
+    rw [h1, h2]
+
+/-- The header is read only for a non-Type3, non-standard-14 font without Encoding entry: otherwise the
+FontFile bytes - however malformed - have no influence (and cannot make construction fail). -/
+theorem header_ignored (T : Tables) (raw : RawFontDict) (h : headerToRead T.fm raw = none) :
+    buildRaw T.gl (dbOf T) T.fm raw = .ok (build T.gl (dbOf T) T.fm (raw.withFontFile none)) := by
+  simp [buildRaw, resolveFontFile, h]
+
+deriving instance DecidableEq for Except
+
+/-- A synthetic header (comment holding a `put`, `#5F` escape, CR LF, a `(put)` string, a real-number key, the
+`.notdef` loop scanned as one `put` under key 1, a procedure) read by the tokeniser + stack machine, in the kernel. -/
+def exampleHeader : Bytes := [37, 33, 80, 83, 45, 65, 100, 111, 98, 101, 70, 111, 110, 116, 45, 49, 46, 48, 58, 32, 83, 121, 110, 116, 104, 32, 48, 48, 49, 46, 48, 48, 49, 10, 49, 49, 32, 100, 105, 99, 116, 32, 98, 101, 103, 105, 110, 10, 47, 70, 111, 110, 116, 66, 66, 111, 120, 32, 123, 48, 32, 45, 50, 48, 48, 32, 49, 48, 48, 48, 32, 56, 48, 48, 125, 32, 114, 101, 97, 100, 111, 110, 108, 121, 32, 100, 101, 102, 10, 47, 69, 110, 99, 111, 100, 105, 110, 103, 32, 50, 53, 54, 32, 97, 114, 114, 97, 121, 10, 48, 32, 49, 32, 50, 53, 53, 32, 123, 49, 32, 105, 110, 100, 101, 120, 32, 101, 120, 99, 104, 32, 47, 46, 110, 111, 116, 100, 101, 102, 32, 112, 117, 116, 125, 32, 102, 111, 114, 10, 100, 117, 112, 32, 54, 53, 32, 47, 65, 32, 112, 117, 116, 32, 37, 32, 100, 117, 112, 32, 54, 54, 32, 47, 66, 32, 112, 117, 116, 10, 100, 117, 112, 32, 54, 54, 32, 47, 117, 110, 105, 50, 48, 65, 67, 32, 112, 117, 116, 13, 10, 100, 117, 112, 32, 54, 55, 32, 47, 102, 35, 53, 70, 105, 32, 112, 117, 116, 10, 100, 117, 112, 32, 54, 53, 32, 47, 103, 49, 50, 51, 32, 112, 117, 116, 10, 40, 112, 117, 116, 41, 32, 51, 46, 53, 32, 47, 88, 32, 112, 117, 116, 10, 114, 101, 97, 100, 111, 110, 108, 121, 32, 100, 101, 102, 10, 99, 117, 114, 114, 101, 110, 116, 100, 105, 99, 116, 32, 101, 110, 100, 10, 99, 117, 114, 114, 101, 110, 116, 102, 105, 108, 101, 32, 101, 101, 120, 101, 99, 10]
+
+theorem exampleHeader_puts :
+    t1Puts exampleHeader = .ok [(1, some ['.', 'n', 'o', 't', 'd', 'e', 'f']), (65, some ['A']), (66, some ['u', 'n', 'i', '2', '0', 'A', 'C']), (67, some ['f', '_', 'i']), (65, some ['g', '1', '2', '3'])] := by
+  decide +kernel
+
+/-- A `put` without two operands makes `get_encoding` (and font construction) raise `ValueError`. -/
+theorem put_underflow_raises : t1Puts [112, 117, 116, 32] = .error "ValueError" := by decide +kernel
+
+/-! ## Font cache -/
+
+/-- Every cached font is the one construction gives for that object's dictionary. -/
+def CacheOK (mk : RawFontDict → Except String Font) (doc : Nat → RawFontDict) (m : RsrcMgr) : Prop :=
+  ∀ e ∈ m.cache, mk (doc e.1) = .ok e.2
+
+theorem getFont_transparent (mk : RawFontDict → Except String Font) (doc : Nat → RawFontDict) (m : RsrcMgr)
+    (h : CacheOK mk doc m) (i : Nat) :
+    (getFont mk m i (doc i)).1 = mk (doc i) ∧ CacheOK mk doc (getFont mk m i (doc i)).2 := by
+  unfold getFont
+  by_cases hi : i = 0
+  · subst hi
+    simp only [bne_self_eq_false, Bool.false_eq_true, if_false, Bool.false_and]
+    cases mk (doc 0) <;> exact ⟨rfl, h⟩
+  · have hne : (i != 0) = true := by simp [hi]
+    simp only [hne, if_true, Bool.true_and]
+    cases hl : cacheLookup m.cache i with
+    | some f =>
+      refine ⟨?_, h⟩
+      unfold cacheLookup at hl
+      cases hf : m.cache.find? (fun e => e.1 == i) with
+      | none => simp [hf] at hl
+      | some e =>
+        simp only [hf, Option.some.injEq] at hl
+        have hm := List.mem_of_find?_eq_some hf
+        have hp : e.1 = i := by simpa using List.find?_some hf
+        have := h e hm
+        rw [hp, hl] at this
+        exact this.symm
+    | none =>
+      cases hb : mk (doc i) with
+      | error e => exact ⟨rfl, h⟩
+      | ok f =>
+        refine ⟨rfl, ?_⟩
+        cases m.caching
+        · exact h
+        · intro e he
+          simp only [if_true, List.mem_cons] at he
+          rcases he with rfl | he
+          · exact hb
+          · exact h e he
+
+/-- **Font construction and caching**: whatever the order and repetition of the pages' font requests and whether
+caching is on or off, each request gets exactly the font that constructing it from its dictionary gives
+(so text and advance of a glyph do not depend on what was shown before). -/
+theorem font_cache_transparent (mk : RawFontDict → Except String Font) (doc : Nat → RawFontDict)
+    (reqs : List Nat) : ∀ (m : RsrcMgr), CacheOK mk doc m →
+    getFonts mk doc m reqs = reqs.map (fun i => mk (doc i)) := by
+  induction reqs with
+  | nil => intro m _; rfl
+  | cons i rest ih =>
+    intro m h
+    obtain ⟨h1, h2⟩ := getFont_transparent mk doc m h i
+    simp only [getFonts, List.map_cons, h1, ih _ h2]
+
+/-- Non-vacuity: a fresh resource manager satisfies the invariant. -/
+example (mk : RawFontDict → Except String Font) (doc : Nat → RawFontDict) (c : Bool) :
+    CacheOK mk doc { caching := c, cache := [] } := by intro e he; cases he
+
 /-! ## The excluded region is really excluded: pdfminer's deliberate deviations from AGL -/
 
 /-- The unrestricted statement: `name2unicode` is the AGL algorithm on EVERY name. -/
@@ -273,7 +434,7 @@ def T0 : Tables :=
     fm := [("Helvetica", [(65, 667), (32, 278)])] }
 
 theorem example_tables_ok : TablesOK T0 := by
-  refine ⟨?_, by decide, ?_, ?_⟩
+  refine ⟨?_, ?_, ?_⟩
   · intro e he; simp [T0, gl0] at he; rcases he with rfl | rfl | rfl | rfl <;> simp
   · intro r hr; simp [T0] at hr; rcases hr with rfl | rfl | rfl <;> decide
   · intro r hr; simp [T0] at hr; rcases hr with rfl | rfl | rfl <;> decide
@@ -298,15 +459,27 @@ example : aglText gl0 (some ['A', '_', 'u', 'n', 'i', '0', '0', '4', '2', '.', '
 example : aglText gl0 (some ['u', 'n', 'i', 'D', '8', '0', '0']) = none := by decide
 example : aglText gl0 (some ['u', '1', '1', '0', '0', '0', '0']) = none := by decide
 
+-- names of the grammar are well formed (hypothesis of `agl_grammar_wellformed`), ill-formed ones are not
+example : wellFormedName gl0 ['A', '_', 'u', 'n', 'i', '0', '0', '4', '2', '.', 's', 'c'] = true := by decide
+example : wellFormedName gl0 ['u', '1', '0', '4', '0', 'C'] = true := by decide
+example : wellFormedName gl0 ['u', 'n', 'i'] = false := by decide
+example : wellFormedName gl0 ['u', 'n', 'i', 'D', '8', '0', '0'] = false := by decide
+example : wellFormedName gl0 ['A', '_', 'f', 'o', 'o'] = false := by decide
+
 -- every code of the example font is judged; the specification is not constant on it
 example : ∀ c ∈ [(32 : Int), 65, 66, 67], judgedCode T0 fd0 c = true := by decide +kernel
 example : specText T0 fd0 32 = [0x58] := by decide +kernel                      -- ToUnicode wins over the encoding
 example : specText T0 fd0 65 = [0xFB01] := by decide                    -- Differences name through the glyph list
 example : specText T0 fd0 66 = [65, 66] := by decide                    -- last Differences assignment (uni0041 0042) wins over g123
-example : specText T0 fd0 67 = placeholder 67 := by decide              -- no name for the code: (cid:67)
+example : specText T0 fd0 67 = specPlaceholder 67 := by decide              -- no name for the code: (cid:67)
 example : specWidth T0 fd0 66 = 500 / 1000 := by decide +kernel         -- Widths[66 - FirstChar]
 example : specWidth T0 fd0 32 = 250 / 1000 := by decide +kernel         -- text is "X": no metric -> MissingWidth
 example : glyphText (modelFont T0 fd0) 66 = [65, 66] := by
   rw [C06_text_precedence T0 example_tables_ok fd0 66 (by decide +kernel)]; decide +kernel
+
+-- the instances for pdfminer's own tables are not vacuous either (the first glyph-list entry keeps the kernel
+-- lookup short; names deeper in the 4 281-entry list cost minutes of String -> List Char conversion)
+example : judgedName Inst.glyphs (some ['A']) = true := by decide +kernel
+example : aglText Inst.glyphs (some ['A']) = some [65] := by decide +kernel
 
 end PdfVerif.Props.C06
